@@ -129,7 +129,7 @@ func init() {
 			"(inconsistent combinations skipped and counted) x pairing {Failover/ShardedMap, Failover/SyncMap, FailoverOf/ShardedMapOf} x 4 repetitions alternating SyncRead off/on (thorough: 12 and custom UpdateTTL/FailedUpdateTTL values); " +
 			"each lone Get is judged against the documented outcome (result class, builder invocation count and timing, backend content and failure cache after quiescence, no lock left) and all pairings/repetitions of a cell must agree; " +
 			"distinct_nontrivial = number of distinct consistent cells executed (every cell is non-trivial: it fixes one row of the table)",
-		Required:    []string{"cells.executed", "runs"},
+		Required:    []string{"cells.executed", "runs", "runs.entry_deleted_during_build"},
 		Assumptions: []string{"README ambiguity for 'failure cached + stale value available': both the cached error and the stale value are accepted", "entry states use TTL margins (>=1s / 1h MaxStaleness / 2h+ too stale)"},
 	})
 }
@@ -163,7 +163,8 @@ func runC03(b *Batch) {
 						cfg.FailedUpdateTTL = []time.Duration{time.Minute, 24 * time.Hour}[rep%2]
 					}
 				}
-				obs, x := c03Run(cfg, cell, rng)
+				variant := []string{"", "precancel", "", "deadline"}[rep%4]
+				obs, x := c03Run(cfg, cell, rng, variant, false)
 				defer x.release()
 				b.R.Eval()
 				b.R.Count("runs", 1)
@@ -185,6 +186,29 @@ func runC03(b *Batch) {
 				}
 			}
 		}
+		// the documented outcome refers to the value that was cached when the Get started: it must not change when the entry
+		// disappears during the build (the builder, a call-out, deletes it)
+		if (cell.State == "stale" || cell.State == "toostale") && !cell.FC {
+			for _, p := range foPairings {
+				rng := rand.New(rand.NewSource(b.CaseSeed(ci*1000 + 777)))
+				cfg := foConfig{API: p[0], BackendKind: p[1], SyncUpdate: cell.SU, FailHard: cell.FH, MaxStaleness: cell.MS, FailedUpdateTTL: cell.FUT}
+				obs, x := c03Run(cfg, cell, rng, "", true)
+				b.R.Eval()
+				b.R.Count("runs.entry_deleted_during_build", 1)
+				okRes := false
+				for _, e := range exp {
+					if e.Result == obs.Result && e.Builds == obs.Builds {
+						okRes = true
+					}
+				}
+				if !okRes {
+					sig := fmt.Sprintf("C03:%s:%s/fc=%v/build=%v/fh=%v:deleted-during-build:res=%s", p[0], cell.State, cell.FC, cell.BuildOK, cell.FH, obs.Result)
+					b.R.Violate(b, ci, sig, fmt.Sprintf("cell %s on %s/%s with the entry deleted while the builder runs: observed result %s builds=%d, documented {%s}", cell, p[0], p[1], obs.Result, obs.Builds, strings.Join(expS, " | ")),
+						map[string]interface{}{"cell": cell.String(), "pairing": p, "events": x.snapshotLog()})
+				}
+				x.release()
+			}
+		}
 		// "determined by": all pairings and repetitions of a cell agree, except for the builder timing of background updates
 		norm := map[string]bool{}
 		for cl := range classes {
@@ -201,7 +225,7 @@ func runC03(b *Batch) {
 	}
 }
 
-func c03Run(cfg foConfig, cell c03Cell, rng *rand.Rand) (c03Obs, *foRun) {
+func c03Run(cfg foConfig, cell c03Cell, rng *rand.Rand, ctxVariant string, hostileDelete bool) (c03Obs, *foRun) {
 	sc := newSched(false, "random", rng)
 	sc.delayProb = 0
 	r := newFoRun(cfg, [][]byte{[]byte("the-key")}, sc)
@@ -212,8 +236,14 @@ func c03Run(cfg foConfig, cell c03Cell, rng *rand.Rand) (c03Obs, *foRun) {
 	if cell.FC {
 		r.primeFailure(0)
 	}
-	r.script = func(int, int) buildOutcome { return buildOutcome{OK: cell.BuildOK} }
-	r.doGet(0, getSpec{Key: 0})
+	r.script = func(int, int) buildOutcome {
+		if hostileDelete {
+			// the entry vanishes while the build is running (as a concurrent Delete / cleanup would do it)
+			_ = r.be.Delete(bg, []byte("the-key"))
+		}
+		return buildOutcome{OK: cell.BuildOK}
+	}
+	r.doGet(0, getSpec{Key: 0, PreCancel: ctxVariant == "precancel", Deadline: ctxVariant == "deadline"})
 	for dl := time.Now().Add(3 * time.Second); time.Now().Before(dl); {
 		if len(r.fo.LockedKeys()) == 0 {
 			break
